@@ -33,7 +33,7 @@ def gy : Nat := 0x483ADA7726A3C4655DA4FBFC0E1108A8FD17B448A68554199C47D08FFB10D4
 structure Pt where
   x : Nat
   y : Nat
-  deriving DecidableEq, Repr, BEq
+  deriving DecidableEq, Repr, BEq, Inhabited
 
 /-- The generator. -/
 def G : Pt := ⟨gx, gy⟩
